@@ -745,8 +745,13 @@ def der_decode_partial(data: bytes) -> Tuple[object, int]:
             value = cls.decode(constructed, content)
         except (ASN1EncodeError, UnicodeDecodeError) as exc:
             raise ASN1DecodeError(str(exc)) from None
+        except RecursionError:
+            raise ASN1DecodeError('Value nested too deeply') from None
     elif constructed:
-        value = TaggedDERObject(tag, der_decode(content), asn1_class)
+        try:
+            value = TaggedDERObject(tag, der_decode(content), asn1_class)
+        except RecursionError:
+            raise ASN1DecodeError('Value nested too deeply') from None
     else:
         value = RawDERObject(tag, content, asn1_class)
 
